@@ -10,6 +10,7 @@ import (
 	"path/filepath"
 	"sort"
 	"strconv"
+	"strings"
 	"sync/atomic"
 	"syscall"
 	"time"
@@ -101,6 +102,10 @@ type Dump struct {
 	List map[string][]string          `json:"list"`
 	Set  map[string][]string          `json:"set"`
 	ZSet map[string][][2]string       `json:"zset"` // member, score
+	// HyperLogLog keys (named by the caller): only their PFCOUNT is part of the
+	// logical state, the stored bytes legitimately differ between replicas and
+	// acknowledged PFADDs may still sit in the write-back cache
+	PF map[string]int64 `json:"pf,omitempty"`
 }
 
 func vnodeFatal(code int, format string, args ...interface{}) int {
@@ -370,7 +375,13 @@ func (h *vnodeHarness) dump(w http.ResponseWriter, req *http.Request) {
 		http.Error(w, "namespace not ready", 503)
 		return
 	}
-	d, err := h.doDump(kvn)
+	hll := map[string]bool{}
+	for _, k := range strings.Split(req.URL.Query().Get("hll"), ",") {
+		if k != "" {
+			hll[k] = true
+		}
+	}
+	d, err := h.doDump(kvn, hll)
 	if err != nil {
 		http.Error(w, err.Error(), 500)
 		return
@@ -378,7 +389,7 @@ func (h *vnodeHarness) dump(w http.ResponseWriter, req *http.Request) {
 	json.NewEncoder(w).Encode(d)
 }
 
-func (h *vnodeHarness) doDump(kvn *node.KVNode) (d *Dump, err error) {
+func (h *vnodeHarness) doDump(kvn *node.KVNode, hll map[string]bool) (d *Dump, err error) {
 	defer func() {
 		if r := recover(); r != nil {
 			err = fmt.Errorf("dump panicked: %v", r)
@@ -391,7 +402,24 @@ func (h *vnodeHarness) doDump(kvn *node.KVNode) (d *Dump, err error) {
 	if err != nil {
 		return nil, err
 	}
+	if len(hll) > 0 {
+		d.PF = map[string]int64{}
+		for k := range hll {
+			v, err := h.read(kvn, "pfcount", full(k))
+			if err != nil {
+				return nil, fmt.Errorf("pfcount %s: %v", k, err)
+			}
+			n, ok := v.(int64)
+			if !ok {
+				return nil, fmt.Errorf("pfcount %s: reply %v", k, v)
+			}
+			d.PF[k] = n
+		}
+	}
 	for _, k := range keys {
+		if hll[k] {
+			continue
+		}
 		v, err := h.read(kvn, "get", full(k))
 		if err != nil {
 			return nil, fmt.Errorf("get %s: %v", k, err)
